@@ -366,7 +366,15 @@ func c08Specs(tier string) []*h.SeqSpec {
 		// expiry
 		ops = append(ops, h.Op{Name: "advance 3h (idle sessions expire)", Do: func(w *h.World) []h.Violation {
 			vrt.Advance(3*time.Hour, false)
-			return reconcile(w, "3 idle hours", func(*Sess) bool { return true })
+			vs := reconcile(w, "3 idle hours", func(*Sess) bool { return true })
+			// three idle hours with a grace period of one: the session has expired (the cache prunes an entry at the
+			// latest 1.1 x Age after its last use), it must have ceased to exist
+			for _, sl := range slots {
+				if s := sessM(w).S[sl]; s != nil && s.Open {
+					vs = append(vs, h.V("ceases-to-exist-after-expiry", "session-survives-expiry", "session %s was idle for 3 h (grace period 1 h) and still answers", sl))
+				}
+			}
+			return vs
 		}})
 		ops = append(ops, h.Op{Name: "advance 20m", Do: func(w *h.World) []h.Violation {
 			vrt.Advance(20*time.Minute, false)
